@@ -13,7 +13,7 @@ CLAIMED = {
             NOTE, "induction + invariant over operation lists; differential correspondence"),
     "C14": ("Refinement theorem: for every operation sequence the queue model (disk directory + in-memory head/size/multiset) produces exactly the "
             "outputs of a reference coalescing FIFO, keeps a gap-free numbered directory and reloads to the same queue; codec round-trip for all flags "
-            "and all normal paths; drain order = latest enqueues. Tie: exhaustive short sequences + random long ones against the real linq.c on a real directory with a virtual clock.",
+            "and all normal paths; drain order = latest enqueues. Handler level, EVERY oracle: a qualifying write that handle_close_write answers without an error is in the queue (no silent loss). Tie: exhaustive short sequences + random long ones against the real linq.c on a real directory with a virtual clock.",
             NOTE + "Known finding F8 (un-normal paths, API level) is reported as KNOWN-FINDING.", "simulation relation to an abstract FIFO; differential correspondence"),
     "C01": ("Theorems over every reachable state of the queue model under any interleaving of writes, clock advances (non-negative), timeout passes, "
             "debounce changes and restarts: a path is yielded only if all its accepted writes are at least the debounce in force old; a finite wait is "
@@ -22,7 +22,8 @@ CLAIMED = {
             NOTE + "Queue level: 'stored' = handed to the store by the timeout pass; clock monotone, whole seconds.", "history invariant lifted through the FIFO simulation; differential correspondence + trace monitor"),
     "C06": ("Theorems for every path, common-parent offset and rule sets: sieve() computes the declarative whole-component matching (deepest matching entry per set, "
             "last hidden component); the decision loop is 'the deepest of {hidden, cluded, included, excluded, history} decides, ties in that order'; project sets never change the decision. "
-            "Tie: the real sieve() on exhaustive small paths and rule placements, and the real handle_close_write with Lua configurations for decisions.",
+            "World level, every benign oracle: handle_close_write extends the on-disk queue by an entry for exactly the written path iff the deepest matching rule says so for this writer; a rejected write changes no directory entry (every oracle: it makes no call but writes). "
+            "Tie: the real sieve() on exhaustive small paths and rule placements (incl. rules naming a hash-colliding twin directory), and the real handle_close_write with Lua configurations for decisions.",
             NOTE + "Rule sets modelled as lists of strings (membership = is_within, exact by C15). Ties between different sets at equal depth are not ranked by the property: the monitor accepts either.",
             "loop invariant to a declarative spec + 'first maximal candidate' lemma; differential correspondence + policy monitor"),
     "C09": ("Theorems: extension = everything from the first dot of the file name not counting a leading dot (decomposition lemma for all names); store layout root/rel/version[-k]ext for all k; "
@@ -33,7 +34,8 @@ CLAIMED = {
     "C02": ("Theorems, queue level: a drain yields each due path once, in the order of its last write; the queue is the reference FIFO; nothing pending means an indefinite wait. "
             "World level, for every benign oracle: one timeout pass of the handler over the file system, whose due prefix consists of plain heads (flags 0, first candidate name free), stores exactly one version of each "
             "with its current content, in queue order; nothing else appears; every other name and inode is unchanged; the journal gets one line per entry; the on-disk queue is the rest and still refines the reference queue; "
-            "the wait is that of the rest; no error (composition of the queue refinement, the exact copy and the handler loop). Tie: random burst histories at world level incl. a store made unusable for one pass; the burst "
+            "the wait is that of the rest; no error (composition of the queue refinement, the exact copy and the handler loop). Write and pass composed: a write accepted at t0, any change of the world that leaves the queue directory alone, then a pass: nothing stored before t0 + debounce, "
+            "exactly one version with the content at the pass from then on. Tie: random burst histories at world level incl. a store made unusable for one pass; the burst "
             "monitor predicts from the on-disk queue what is due and demands exactly one new version with the current content, the remaining queue and the wait.",
             NOTE + "The world theorem covers plain heads without collision; history, project and collision heads are covered by C08/C11/C04 theorems and by the correspondence. No concurrent writer.",
             "refinement + program-logic composition over the world model; world correspondence + burst monitor"),
@@ -69,10 +71,11 @@ CLAIMED = {
             "program logic for all oracles over the world model; fault enumeration against the model under the same oracle + monitors; trace lemmas"),
     "C11": ("Theorems: the flags of a queued project member round-trip. World level, every benign oracle, BOTH traversal orders: after the snapshot program the new directory holds, at the same relative paths, the same inodes "
             "as the unstable project tree for everything the project still has and nothing else; what the project lost is pruned; intermediate directories exist; store, earlier snapshots and all contents unchanged; "
-            "a due project head yields exactly one new snapshot directory (also after k name collisions), one journal line, and only then leaves the queue. Tie: project histories (root and parent style, depth 1-4, "
+            "a due project head yields exactly one new snapshot directory (also after k name collisions), one journal line, and only then leaves the queue. File branch: a due project member gets its version and the unstable tree's entry for it becomes a hard link to "
+            "exactly that new inode (entry absent or pointing to an older version, which is untouched); member(s) and project entry due in one pass: version, unstable entry and snapshot entry are the same new inode, for any number of members in the burst. Tie: project histories (root and parent style, depth 1-4, "
             "deletions of files and whole sub-directories, restarts, both orders, a blocked project store); monitor: every new snapshot entry is the same inode as the latest version, survivors present, deleted absent, "
             "earlier snapshots untouched, a project entry leaves the queue only with exactly one snapshot.",
-            NOTE + "That the unstable tree holds the latest versions is the file branch's job (tied by correspondence). No symbolic links inside projects (the model's access() does not follow a dangling link).",
+            NOTE + "Member theorems assume the first candidate names free (collisions: C04/C11 head theorems). No symbolic links inside projects (the model's access() does not follow a dangling link).",
             "program logic over the inode-level file system for both fts orders; world correspondence + project monitor"),
     "C19": ("Theorems: line format (empty timestamp/label omitted with their tab, pid omitted when 0), exactly one newline, any positive chunking of the write appends exactly the line once, a labelled "
             "event appends exactly its line and nothing else changes, unlabelled events / no journal do nothing; handler level, whole histories of exec / write / timeout events: the journal is only appended to (EVERY oracle), and for oracles that only cut writes the appended part is a concatenation of whole lines, one per labelled event, with the label selected by the event kind and the writer's status and the stamp of the event's clock. Tie: all label choices, timestamp patterns including the empty one, short writes (one call / every write of an operation), reloads that change the stamp pattern, journal monitor (append-only whole lines, stamp in force, event path as last field).",
